@@ -13,7 +13,7 @@ class MNode:
         self.beneath = []           # handles only: shadowed older handles
 
 
-def make_handle_class(desper):
+def make_handle_class(desper, falsy=False):
     class CountingHandle(desper.Handle):
         """load() is counted and returns a fresh object per call."""
 
@@ -37,16 +37,21 @@ def make_handle_class(desper):
 
         def __repr__(self):
             return f'<H{self.uid}>'
+    if falsy:
+        # handles (and maps, see TreeDriver) that are falsy objects
+        CountingHandle.__len__ = lambda self: 0
     return CountingHandle
 
 
 class TreeDriver:
     """Applies tree operations to a real ResourceMap and to the model."""
 
-    def __init__(self, res):
+    def __init__(self, res, falsy=False):
         self.desper = import_desper()
         self.res = res
-        self.Handle = make_handle_class(self.desper)
+        self.Handle = make_handle_class(self.desper, falsy)
+        if falsy:
+            res.tags['falsy_handles'].add(True)
         self.root = self.desper.ResourceMap()
         self.model = MNode('m', self.root)
         self.nuid = 0
